@@ -99,7 +99,7 @@ func VerifyJSON(signingName string, keyID KeyID, publicKey ed25519.PublicKey, me
 	// This allows us to add and remove the top-level keys from the JSON object.
 	// It also ensures that the JSON is actually a valid JSON object.
 	var object map[string]*json.RawMessage
-	var signatures map[string]map[KeyID]spec.Base64Bytes
+	var signatures map[string]map[KeyID]json.RawMessage
 	if err := json.Unmarshal(message, &object); err != nil {
 		return err
 	}
@@ -111,9 +111,15 @@ func VerifyJSON(signingName string, keyID KeyID, publicKey ed25519.PublicKey, me
 	if err := json.Unmarshal(*object["signatures"], &signatures); err != nil {
 		return err
 	}
-	signature, ok := signatures[signingName][keyID]
+	// Only decode the signature we were asked about: an undecodable signature
+	// from some other entity must not stop this one from being verified.
+	rawSignature, ok := signatures[signingName][keyID]
 	if !ok {
 		return fmt.Errorf("No signature from %q with ID %q", signingName, keyID)
+	}
+	var signature spec.Base64Bytes
+	if err := json.Unmarshal(rawSignature, &signature); err != nil {
+		return err
 	}
 	if len(signature) != ed25519.SignatureSize {
 		return fmt.Errorf("Bad signature length from %q with ID %q", signingName, keyID)
